@@ -12,11 +12,6 @@ structure Pre (s : DD ℝ) : Prop where
   prec_nonneg : 0 ≤ s.prec
   dom_ordered : s.dom.lo ≤ s.dom.hi
 
-/-- what the equal-interval scheme needs (only asked when the scheme is not EQUAL_PROB): classes
-wider than the comparator precision and mass on the domain -/
-def IntOK (par : Parent ℝ) (s : DD ℝ) : Prop :=
-  s.scheme ≠ 1 → s.prec < (s.dom.hi - s.dom.lo) / (s.n : ℝ) ∧ par.P s.dom.lo < par.P s.dom.hi
-
 /-- a valid partition: the clauses that hold after every discretisation -/
 structure Valid (s : DD ℝ) : Prop where
   n_classes : nClassesOk s = true
@@ -48,18 +43,21 @@ theorem eqProp_valid (par : Parent ℝ) (s s' : DD ℝ) (hs : Pre s) (H : Parent
     exact eqPropRaw_bounds_chain par s hs.n_pos hs.dom_ordered H
   · exact TMap.keys_strict_of_sorted s.prec hs.prec_nonneg _ h1
 
-theorem eqInt_valid' (par : Parent ℝ) (s : DD ℝ) (hs : Pre s) (H : ParentOK par s.dom.lo s.dom.hi)
-    (hw : s.prec < (s.dom.hi - s.dom.lo) / (s.n : ℝ)) (hc : par.P s.dom.lo < par.P s.dom.hi) :
-    Valid (eqInt par s) := by
-  obtain ⟨a, b, c, d, e, _, _, g⟩ := eqInt_valid par s hs.n_pos hs.prec_nonneg hw H.mono hc
-  exact ⟨a, b, c, d, e, g⟩
-
 /-- fields that a discretisation does not touch -/
 def SameCfg (s s' : DD ℝ) : Prop :=
   s'.n = s.n ∧ s'.dom = s.dom ∧ s'.prec = s.prec ∧ s'.median = s.median ∧ s'.scheme = s.scheme
 
+theorem eqInt_valid' (par : Parent ℝ) (s r : DD ℝ) (hs : Pre s) (H : ParentOK par s.dom.lo s.dom.hi)
+    (h : eqInt par s = .ok r) : Valid r ∧ SameCfg s r := by
+  obtain ⟨a, b, c, d, e, g, e5, e6, e7, e8, e9⟩ :=
+    eqInt_partition par s r hs.n_pos hs.prec_nonneg hs.dom_ordered H.mono h
+  exact ⟨⟨a, b, c, d, e, by rw [e7]; exact g⟩, e5, e6, e7, e8, e9⟩
+
+/-- `discretize()` with any of the three schemes: a valid partition, configuration untouched.
+(Since the repair of `discretizeEqualIntervals` no side condition on the width of the classes or on
+the mass of the domain is left.) -/
 theorem discretize_valid (par : Parent ℝ) (s s' : DD ℝ) (hs : Pre s) (H : ParentOK par s.dom.lo s.dom.hi)
-    (hi : IntOK par s) (h : discretize par s = .ok s') : Valid s' ∧ SameCfg s s' := by
+    (h : discretize par s = .ok s') : Valid s' ∧ SameCfg s s' := by
   unfold discretize at h
   have hn0 : (s.n == 0) = false := by have := hs.n_pos; simp; omega
   simp only [hn0, Bool.false_eq_true, if_false] at h
@@ -67,13 +65,11 @@ theorem discretize_valid (par : Parent ℝ) (s s' : DD ℝ) (hs : Pre s) (H : Pa
   · simp only [h1, beq_self_eq_true, if_true] at h
     obtain ⟨_, _, _, _, e5, e6, e7, e8, e9⟩ := eqProp_map par s s' hs.n_pos hs.prec_nonneg h
     exact ⟨eqProp_valid par s s' hs H h, e5, e6, e7, e8, e9⟩
-  · have hI := hi h1
-    have h1' : (s.scheme == 1) = false := by simpa using h1
+  · have h1' : (s.scheme == 1) = false := by simpa using h1
     simp only [h1', Bool.false_eq_true, if_false] at h
     by_cases h2 : s.scheme = 2
     · simp only [h2, beq_self_eq_true, if_true] at h
-      injection h with h; subst h
-      exact ⟨eqInt_valid' par s hs H hI.1 hI.2, rfl, rfl, rfl, rfl, rfl⟩
+      exact eqInt_valid' par s s' hs H h
     · have h2' : (s.scheme == 2) = false := by simpa using h2
       simp only [h2', Bool.false_eq_true, if_false] at h
       cases he : eqProp par s with
@@ -82,11 +78,10 @@ theorem discretize_valid (par : Parent ℝ) (s s' : DD ℝ) (hs : Pre s) (H : Pa
         simp only [he, bind, Except.bind] at h
         obtain ⟨_, _, _, _, e5, e6, e7, e8, e9⟩ := eqProp_map par s s1 hs.n_pos hs.prec_nonneg he
         split at h
-        · injection h with h; subst h
-          have hs1 : Pre s1 := ⟨by rw [e5]; exact hs.n_pos, by rw [e7]; exact hs.prec_nonneg, by rw [e6]; exact hs.dom_ordered⟩
+        · have hs1 : Pre s1 := ⟨by rw [e5]; exact hs.n_pos, by rw [e7]; exact hs.prec_nonneg, by rw [e6]; exact hs.dom_ordered⟩
           have H1 : ParentOK par s1.dom.lo s1.dom.hi := by rw [e6]; exact H
-          refine ⟨eqInt_valid' par s1 hs1 H1 (by rw [e5, e6, e7]; exact hI.1) (by rw [e6]; exact hI.2), ?_⟩
-          exact ⟨e5, e6, e7, e8, e9⟩
+          obtain ⟨hv, f5, f6, f7, f8, f9⟩ := eqInt_valid' par s1 s' hs1 H1 h
+          exact ⟨hv, by rw [f5, e5], by rw [f6, e6], by rw [f7, e7], by rw [f8, e8], by rw [f9, e9]⟩
         · injection h with h; subst h
           exact ⟨eqProp_valid par s s1 hs H he, e5, e6, e7, e8, e9⟩
 
@@ -138,15 +133,13 @@ theorem step_rediscretize (st : MSt) : step st .rediscretize = (discretize st.1 
   simp only [step, target, bind, Except.bind]
   cases discretize st.1 st.2 <;> rfl
 
-/-- admissibility of an operation in a state: class counts are positive, an update brings a
-parent satisfying `H` on an ordered domain, and whatever is handed to `discretize` meets the
-equal-interval side conditions when the scheme is not EQUAL_PROB -/
-def Adm (st : MSt) (op : Op) : Prop :=
-  (match op with
-   | .setN n => 1 ≤ n
-   | .update par dom => dom.lo ≤ dom.hi ∧ ParentOK par dom.lo dom.hi
-   | _ => True) ∧
-  ∀ p s0, target st op = .ok (some (p, s0)) → IntOK p s0
+/-- admissibility of an operation: class counts are positive and an update brings a parent
+satisfying `H` on an ordered domain -/
+def Adm (_st : MSt) (op : Op) : Prop :=
+  match op with
+  | .setN n => 1 ≤ n
+  | .update par dom => dom.lo ≤ dom.hi ∧ ParentOK par dom.lo dom.hi
+  | _ => True
 
 def AllAdm : MSt → List Op → Prop
   | _, [] => True
@@ -175,7 +168,6 @@ theorem step_good (st st' : MSt) (op : Op) (hg : Good st) (ha : Adm st op) (h : 
       | ok s' =>
         simp only [hd, pure, Except.pure] at h
         injection h with h; subst h
-        have hI := ha.2 p s0 ht
         -- the handed state satisfies Pre and H
         have key : Pre s0 ∧ ParentOK p s0.dom.lo s0.dom.hi := by
           cases op with
@@ -184,7 +176,7 @@ theorem step_good (st st' : MSt) (op : Op) (hg : Good st) (ha : Adm st op) (h : 
             injection ht with ht
             split at ht
             · injection ht with ht; injection ht with h1 h2; subst h1; subst h2
-              exact ⟨⟨ha.1, hg.pre.prec_nonneg, hg.pre.dom_ordered⟩, hg.parent⟩
+              exact ⟨⟨ha, hg.pre.prec_nonneg, hg.pre.dom_ordered⟩, hg.parent⟩
             · simp at ht
           | setMedian b =>
             simp only [target] at ht
@@ -206,12 +198,12 @@ theorem step_good (st st' : MSt) (op : Op) (hg : Good st) (ha : Adm st op) (h : 
           | update par dom =>
             simp only [target] at ht
             injection ht with ht; injection ht with ht; injection ht with h1 h2; subst h1; subst h2
-            exact ⟨⟨hg.pre.n_pos, hg.pre.prec_nonneg, ha.1.1⟩, ha.1.2⟩
+            exact ⟨⟨hg.pre.n_pos, hg.pre.prec_nonneg, ha.1⟩, ha.2⟩
           | rediscretize =>
             simp only [target] at ht
             injection ht with ht; injection ht with ht; subst ht
             exact ⟨hg.pre, hg.parent⟩
-        obtain ⟨hv, e5, e6, e7, _, _⟩ := discretize_valid p s0 s' key.1 key.2 hI hd
+        obtain ⟨hv, e5, e6, e7, _, _⟩ := discretize_valid p s0 s' key.1 key.2 hd
         exact ⟨⟨by rw [e5]; exact key.1.n_pos, by rw [e7]; exact key.1.prec_nonneg, by rw [e6]; exact key.1.dom_ordered⟩,
           by rw [e6]; exact key.2, hv⟩
 
